@@ -115,6 +115,18 @@ def build(run):
                     if num != x.num_sub_entities(t - k) or tuple(map(str, ents)) != tuple(map(str, x.sub_entities(t - k))) \
                             or set(map(str, types)) != set(map(str, x.sub_entity_types(t - k))):
                         return f"{path}: entities of codimension {k} are not those of dimension tdim-{k}"
+                    if len(ents) != num or any(e.topological_dimension != t - k for e in ents) or len(set(map(str, types))) != len(types) \
+                            or any(ty.topological_dimension != t - k for ty in types):
+                        return (f"{path}: codimension-{k} entities {tuple(map(str, ents))} / types {tuple(map(str, types))} disagree with the count {num} "
+                                f"or are not of dimension {t - k}")
+                    if t - k < 0 and (num != 0 or tuple(ents) != () or tuple(types) != ()):
+                        return f"{path}: there are no entities of dimension {t - k}, but codimension {k} reports {num} / {tuple(map(str, ents))}"
+                # dimensions outside 0..tdim have no entities
+                for d in (-3, -2, -1, t + 1, t + 2):
+                    n += 1
+                    if x.num_sub_entities(d) != 0 or tuple(x.sub_entities(d)) != () or tuple(x.sub_entity_types(d)) != ():
+                        return (f"{path}: dimension {d} is outside 0..{t} but num_sub_entities={x.num_sub_entities(d)}, sub_entities={tuple(map(str, x.sub_entities(d)))}, "
+                                f"sub_entity_types={tuple(map(str, x.sub_entity_types(d)))}")
                 if (x.num_vertices, x.num_edges, x.num_faces) != (x.num_sub_entities(0), x.num_sub_entities(1), x.num_sub_entities(2)):
                     return f"{path}: num_vertices/edges/faces disagree with num_sub_entities"
                 # diamond property: each ridge is shared by exactly two facets
